@@ -59,7 +59,7 @@ def run_check(prop_id, tier, seed):
     for name, why in probs:
         broken.append(dict(kind='proof-break', theorem='Generated.' + name,
                            detail='parameter extraction failed: ' + why))
-    targets = ['SshuttleModel.Props.' + prop_id] + list(getattr(mod, 'EXTRA_TARGETS', []))
+    targets = common.prop_modules(prop_id) + list(getattr(mod, 'EXTRA_TARGETS', []))
     ok, out, build_s = common.lake_build(targets)
     if not ok:
         errs = [l for l in out.split('\n') if 'error' in l][:12]
@@ -89,9 +89,9 @@ def run_check(prop_id, tier, seed):
                                detail=raw[-1500:]))
     checker_cmd = 'cd lean && lake build %s && lake env lean .audit/Audit_%s.lean' % (' '.join(targets), prop_id)
     if ok and tier == 'thorough' and not os.environ.get('VERIF_NO_LEANCHECKER'):
-        rc, lc_out = common.sh(['lake', 'env', 'leanchecker', 'SshuttleModel.Props.' + prop_id],
+        rc, lc_out = common.sh(['lake', 'env', 'leanchecker'] + common.prop_modules(prop_id),
                                cwd=common.LEAN_DIR, timeout=3000, env=common.lean_env())
-        checker_cmd += ' && lake env leanchecker SshuttleModel.Props.' + prop_id
+        checker_cmd += ' && lake env leanchecker ' + ' '.join(common.prop_modules(prop_id))
         if rc != 0:
             broken.append(dict(kind='proof-break', theorem='leanchecker', detail=lc_out[-1500:]))
 
@@ -210,7 +210,7 @@ def run_replay(prop_id, path):
     mod = prop_module(prop_id)
     if rep.get('kind') in ('proof-break', 'corr-break') and 'case' not in rep:
         common.regenerate_params()
-        ok, out, _ = common.lake_build(['SshuttleModel.Props.' + prop_id])
+        ok, out, _ = common.lake_build(common.prop_modules(prop_id))
         ctx = Ctx(prop_id, 'quick', 0)
         ctx.model_available = ok
         mod.run(ctx)
